@@ -1380,8 +1380,8 @@ func perturbArgs(args []reflect.Value, r *Rng) {
 		e := l.v.Index(r.Intn(l.v.Len()))
 		e.SetUint(e.Uint() ^ uint64(1<<uint(r.Intn(8))))
 	case 1:
-		bits := l.v.Type().Bits()
-		l.v.SetUint((l.v.Uint() ^ uint64(1)<<uint(r.Intn(bits))) & (^uint64(0) >> uint(64-bits)))
+		// low bits only: an integer may be a size, and sizes keep their guard rails
+		l.v.SetUint(l.v.Uint() ^ uint64(1)<<uint(r.Intn(3)))
 	case 2:
 		l.v.SetInt(l.v.Int() ^ 1)
 	case 3:
